@@ -16,7 +16,7 @@ from .. import core, space
 
 ID = "C08"
 LEVEL = "model_checking"
-RULE = ("histories = (prefix of <=2 disturbing solve/restart operations drawn from an 8-letter alphabet: other field, other save list, other stop, "
+RULE = ("histories = (prefix of <=2 disturbing solve/restart operations drawn from a 10-letter alphabet: other field, other save list, other stop, other CFL, "
         "monitors, first-step snapshot) x (probe operation: solve(f1) x 5 save lists x 3 monitor settings; restart pairs N+M for N in 1..3, M in 1..2) "
         "x every integrator class x 3 systems x {monitors given to solve, monitors given to the constructor}; "
         "non-trivial = history with a non-empty prefix or a probe with snapshots/monitors")
@@ -31,8 +31,10 @@ HORIZON = 3.0
 _SYS = {}
 
 
-def system(name):
-    if name in _SYS:
+def system(name, fresh=False):
+    """fresh=True builds new model/mesh/discretisation objects: a history must not share hidden state of the discretisation
+    (e.g. a cached time step) with the reference run it is compared with"""
+    if name in _SYS and not fresh:
         return _SYS[name]
     if name == "conv6-muscl":
         model = space.convection.model(1.0)
@@ -57,12 +59,14 @@ def system(name):
         var = "mach"
     else:
         raise KeyError(name)
+    if fresh:
+        return (model, m, disc, {"a": fa, "b": fb}, var)
     _SYS[name] = (model, m, disc, {"a": fa, "b": fb}, var)
     return _SYS[name]
 
 
 def reftraj(cls, sysname, fkey, kmax=8):
-    model, m, disc, fs, var = system(sysname)
+    model, m, disc, fs, var = system(sysname, fresh=True)
     s = cls(m, disc)
     Q, dts = [space.field.fdata(model, m, [d.copy() for d in fs[fkey]])], []
     for _ in range(kmax):
@@ -103,7 +107,7 @@ class Runner:
 
     def __init__(self, cls, sysname, ctor_mon="none"):
         self.cls, self.sysname = cls, sysname
-        self.model, self.m, self.disc, self.fs, self.var = system(sysname)
+        self.model, self.m, self.disc, self.fs, self.var = system(sysname, fresh=True)
         self.ctor = mon_spec(ctor_mon, self.var)
         self.solver = cls(self.m, self.disc, monitors=self.ctor) if ctor_mon != "none" else cls(self.m, self.disc)
         self.last = None
@@ -128,7 +132,7 @@ class Runner:
         # an explicit far stop time overrides the default "stop at the last save time", so that sibling probes run the same N iterations
         stop = {"maxit": o["maxit"], "tottime": 1e30}
         with np.errstate(all="ignore"), core.time_limit(HORIZON):
-            out = call(f, CFL, list(ts), stop=stop, monitors=mons)
+            out = call(f, o.get("cfl", CFL), list(ts), stop=stop, monitors=mons)
         sols = list(out.solutions)
         self.last = sols[-1]
         obs = {"fields": tuple(fbytes(g) for g in sols), "nit": self.solver.nit(), "totnit": self.solver.totnit()}
@@ -171,6 +175,8 @@ DISTURB = [
     {"op": "solve", "f": "a", "save": "early2", "maxit": 1, "mon": "mix"},
     {"op": "restart", "maxit": 1},
     {"op": "restart", "maxit": 2, "rsave": [1e-3], "mon": "f1"},
+    {"op": "solve", "f": "b", "save": "none", "maxit": 2, "cfl": 0.8},       # another CFL number on the same objects
+    {"op": "restart", "maxit": 1, "cfl": 0.15},
 ]
 PROBE_SAVES = ["none", "early", "early2", "late", "early+late", "all", "start+late"]
 PROBE_MONS = ["none", "f1", "mix"]
